@@ -89,7 +89,7 @@ impl<F: CircuitField> AssignedBigUint<F> {
     /// This function is the off-circuit analog of
     /// [crate::biguint::biguint_gadget::BigUintGadget::constrain_as_public_input].
     pub fn as_public_input(element: &BigUint, nb_bits: u32) -> Vec<F> {
-        biguint_to_limbs(element, Some(nb_bits.div_ceil(LOG2_BASE)))
+        biguint_to_limbs(element, Some(nb_bits.max(1).div_ceil(LOG2_BASE)))
     }
 }
 
